@@ -301,7 +301,7 @@ CLAIMED["C14"]["text"] += (
     "through a pipe (KF-C14-AIFF-SSND-OFFSET-PIPE).")
 CLAIMED["C19"]["text"] += (
     " Round 5: (i) name class on real descriptors: live handles whose files have the same name in different directories or no name (fd routes), ALAC writers with a packet spooled before any close; "
-    "vio ALAC twins beyond one packet (vlib/spoolcamp.py); Sf.SpoolWorld + C19Spool (fwrite_frame, fopen_fresh, fopen_shared_truncates, two_writers_isolated / two_writers_shared_name). (ii) heap history: every writer "
+    "vio ALAC twins beyond one packet (vlib/spoolcamp.py); Sf.SpoolWorld + C19Spool (run_isolated: any number of writers, every history, injective spool names => every file receives what its handle spooled; fopen_shared_truncates, two_writers_shared_name). (ii) heap history: every writer "
     "script of every container (SD2 with its resource fork) under three allocator fills of fresh heap memory -- transcripts and closed bytes must not follow the fill (vlib/heapcamp.py); Sf.HeaderBuf + C19Heap "
     "(emit_independent_of_heap, gap_is_zero, no_clearing_rule_leaks_heap).")
 
